@@ -21,6 +21,12 @@ func drawC06(t *rapid.T) *Case {
 	n := rapid.IntRange(2, 8).Draw(t, "nclients")
 	var metas []*ClientMeta
 	sharedAddr := "192.0.2.99:40404"
+	// 15%: every client sends the same ClientHello.random (a client without entropy, a replayed
+	// hello): the hellos still differ, and so must what is reported for them
+	var sameRandom []byte
+	if drawBool(t, "samerandom", 15) {
+		sameRandom = rapid.SliceOfN(rapid.Byte(), 32, 32).Draw(t, "hellorandom")
+	}
 	for ci := 0; ci < n; ci++ {
 		proto := []string{"h2", "h1", "none"}[rapid.IntRange(0, 2).Draw(t, "proto")]
 		hello := DrawHello(t, HelloOpts{Proto: proto})
@@ -31,6 +37,9 @@ func drawC06(t *rapid.T) *Case {
 			addr = sharedAddr
 		}
 		cp := &ClientPlan{ID: ci, Addr: addr, Hello: hello}
+		if sameRandom != nil {
+			cp.Random = sameRandom
+		}
 		m := &ClientMeta{Proto: proto}
 		if proto == "h2" {
 			burst := 0
